@@ -582,6 +582,24 @@ def rule_r7(chk, m):
         chk.ok("C09-R7", "dates[all scopes]", "every loaded global resolves", m.rel)
 
 
+def rule_r8(chk, m):
+    from .. import memo
+    chk.rule("C09-R8", "periods and spans answer from their current fields: a memoised method/property (functools.cached_property, "
+             "cache, lru_cache) of a class in dates.py reads only attributes that no method re-assigns after construction "
+             "(Span.shift/shift_end/reverse mutate in place, so length/iteration/indexing must not be cached across them)", floor=1)
+    n_examples = memo.self_check()
+    classes = {c.name: c for c in m.tree.body if isinstance(c, ast.ClassDef)}
+    found = 0
+    for cname, c in sorted(classes.items()):
+        for f, ok, detail in memo.memo_attr_findings(c, classes.get):
+            found += 1
+            chk.ob("C09-R8", f"dates.{cname}.{f.name}[memoised]", ok, detail, m.loc(f))
+            chk.saw(m, f"{cname}.{f.name}")
+    mutable = sorted(c for c in classes if memo.stores_after_construction(memo._class_methods(classes[c], classes.get)))
+    chk.ok("C09-R8", "dates[memoised methods]", f"{found} memoised method(s) in {len(classes)} classes; classes mutated in place after construction: "
+           f"{mutable}; rule self-check on {n_examples} embedded examples fired as expected", m.rel)
+
+
 def run(chk):
     m = chk.repo.mod(MOD)
     rule_r1(chk, m)
@@ -591,6 +609,7 @@ def run(chk):
     rule_r5(chk, m)
     rule_r6(chk, m)
     rule_r7(chk, m)
+    rule_r8(chk, m)
     chk.assumptions = [
         "datetime.date / calendar.monthrange are correct (the checker's own calendar module is the oracle for month lengths)",
         "year/segment forms are affine in year, so the sampled years (negative, 0, 1, 1999..9999) stand for all years",
